@@ -11,7 +11,7 @@ CLASSES = ["base", "subst-header", "subst-payload", "subst-sig", "sig-bitflip", 
 def keys_for(tier):
     if tier == "thorough":
         return "oct:32,oct:48,oct:64,oct:65,oct:100,oct:128,oct:129,oct:200,rsa:2048,rsa:2050,rsa:3072,rsa:4096,rsapss:2048,ec:P-256,ec:P-384,ec:P-521,ec:secp256k1,okp:Ed25519,okp:Ed448"
-    return "oct:64,oct:100,rsa:2048,rsa:2050,ec:P-256,ec:P-384,ec:P-521,ec:secp256k1,okp:Ed25519,okp:Ed448"
+    return "oct:64,oct:100,oct:129,oct:200,rsa:2048,rsa:2050,ec:P-256,ec:P-384,ec:P-521,ec:secp256k1,okp:Ed25519,okp:Ed448"
 
 
 BASES = ["harness-signed", "libjwt-signed(openssl)", "libjwt-signed(gnutls)"]
